@@ -145,7 +145,7 @@ def index_function(inst, V, ctx, body, t, k):
                     reg = ivl.intersect(reg, sc.cond_region(sc.rewrite(g[1], st), tv, st))
                 if not reg:
                     continue
-                f = sc.affine(sc.rewrite(val, st)).restrict(reg)
+                f = sc.affine(sc.rewrite(val, st), region=reg)
                 pieces += f.pieces
                 covered = ivl.union(covered, reg)
             missing = ivl.diff(dom, covered, sc.tlo, sc.thi)
